@@ -64,8 +64,8 @@ func (r *repair) search() (int, uint64, *DbState) {
 		offsets, done = scnr.getUpTo(i)
 		if done {
 			i = len(offsets) - 1
-			if i == prev {
-				return 0, 0, nil // no more states
+			if i < 0 || i == prev {
+				return 0, 0, nil // no (more) states
 			}
 			last = true
 		}
